@@ -188,3 +188,29 @@ const (
 	kindForDone   = cfg.KindForDone
 	kindForPost   = cfg.KindForPost
 )
+
+// varEqConst interprets a fact as a statement about `v == c`: it returns the
+// truth value the fact implies for that equality (handles ==, != and switch
+// case facts).
+func varEqConst(info *types.Info, f cfgx.Fact, v *types.Var, c int64) (val bool, ok bool) {
+	if v == nil {
+		return false, false
+	}
+	if f.Tag != nil {
+		if core.VarOf(info, f.Tag) == v && constIs(info, f.Cond, c) {
+			return f.Val, true
+		}
+		return false, false
+	}
+	b, isBin := ast.Unparen(f.Cond).(*ast.BinaryExpr)
+	if !isBin || (b.Op != token.EQL && b.Op != token.NEQ) {
+		return false, false
+	}
+	if !((core.VarOf(info, b.X) == v && constIs(info, b.Y, c)) || (core.VarOf(info, b.Y) == v && constIs(info, b.X, c))) {
+		return false, false
+	}
+	if b.Op == token.EQL {
+		return f.Val, true
+	}
+	return !f.Val, true
+}
